@@ -344,7 +344,8 @@ def _quant(it, x, universal):
                 finally:
                     it.definedness = s
 
-            return ForallV(n, safe_body) if universal else ExistsV(n, safe_body)
+            el = (lambda k, seq=seq: it.seq_elem(seq, k)) if isinstance(seq, MapSeq) else None
+            return ForallV(n, safe_body, el) if universal else ExistsV(n, safe_body, el)
     seq = _as_iter(it, x)
     if isinstance(seq, list):
         ts = [it.truth(v) for v in seq]
@@ -382,13 +383,20 @@ def _nested_quant(it, g, universal):
             del it.pc[n_pc:]
         if guard is True:
             return inner
-        if isinstance(inner, ForallV):
-            return ForallV(inner.n, lambda j, inner=inner, guard=guard: disj(neg(guard), core.to_bool(inner.body(j))))
-        if isinstance(inner, ExistsV):
-            return ExistsV(inner.n, lambda j, inner=inner, guard=guard: conj(guard, core.to_bool(inner.body(j))))
-        return disj(neg(guard), inner) if universal else conj(guard, inner)
+        return _guarded(guard, inner, universal)
 
-    return ForallV(n, body) if universal else ExistsV(n, body)
+    el = (lambda k, seq=seq: it.seq_elem(seq, k)) if isinstance(seq, MapSeq) else None
+    return ForallV(n, body, el) if universal else ExistsV(n, body, el)
+
+
+def _guarded(guard, inner, universal):
+    if isinstance(inner, ForallV):
+        return ForallV(inner.n, lambda j, inner=inner: _guarded(guard, inner.body(j), universal), inner.elem)
+    if isinstance(inner, ExistsV):
+        return ExistsV(inner.n, lambda j, inner=inner: _guarded(guard, inner.body(j), universal), inner.elem)
+    if isinstance(inner, bool):
+        return (True if inner else neg(guard)) if universal else (guard if inner else False)
+    return disj(neg(guard), core.to_bool(inner)) if universal else conj(guard, core.to_bool(inner))
 
 
 def b_max(it, *args, **kw):
